@@ -1079,11 +1079,120 @@ func c10SealedCommit(t *testing.T, out *vh.Out) {
 	out.Op(res, "sealedcommit")
 }
 
+// c10GateStore: a store whose next write of the keyring can be held back (a slow storage)
+type c10GateStore struct {
+	physical.Backend
+	mu      sync.Mutex
+	armed   bool
+	entered chan struct{}
+	release chan struct{}
+}
+
+func (g *c10GateStore) Put(ctx context.Context, e *physical.Entry) error {
+	if e.Key == KeyringPath {
+		g.mu.Lock()
+		armed := g.armed
+		g.armed = false
+		g.mu.Unlock()
+		if armed {
+			close(g.entered)
+			<-g.release
+		}
+	}
+	return g.Backend.Put(ctx, e)
+}
+
+// c10TickRace (directed, concurrent): the periodic bookkeeping tick (CheckBarrierAutoRotate: it persists the encryption
+// count with a keyring write) on a slow storage WHILE an operator rotates the encryption key. Whatever the interleaving:
+// after a seal and an unseal every entry written before is readable and the term the rotation reported is the active
+// one. Op line: tickrace => before:<ok|lost>|after:<ok|lost>|term:<kept|regressed>
+func c10TickRace(t *testing.T, out *vh.Out) {
+	out.Reset()
+	ctx := context.Background()
+	inm, err := inmem.NewInmem(map[string]string{"disable_transactions": "true"}, log.NewNullLogger())
+	if err != nil {
+		t.Fatal(err)
+	}
+	gate := &c10GateStore{Backend: inm, entered: make(chan struct{}), release: make(chan struct{})}
+	b := NewAESGCMBarrier(gate, nil)
+	rootKey, _ := b.GenerateKey()
+	if err := b.Initialize(ctx, rootKey, nil); err != nil {
+		t.Fatal(err)
+	}
+	if err := b.Unseal(ctx, rootKey); err != nil {
+		t.Fatal(err)
+	}
+	if err := b.Put(ctx, &logical.StorageEntry{Key: "kv/before", Value: []byte("term 1")}); err != nil {
+		t.Fatal(err)
+	}
+	gate.mu.Lock()
+	gate.armed = true
+	gate.mu.Unlock()
+	tickDone := make(chan error, 1)
+	go func() { _, err := b.CheckBarrierAutoRotate(ctx); tickDone <- err }()
+	select {
+	case <-gate.entered:
+	case <-tickDone:
+		out.Op("unmodelled:tick-wrote-nothing", "tickrace")
+		return
+	case <-time.After(20 * time.Second):
+		t.Fatal("tick did not reach the storage")
+	}
+	type rr struct {
+		term uint32
+		err  error
+	}
+	rotDone := make(chan rr, 1)
+	go func() { term, err := b.Rotate(ctx); rotDone <- rr{term, err} }()
+	var rot rr
+	got := false
+	select {
+	case rot = <-rotDone:
+		got = true
+	case <-time.After(400 * time.Millisecond): // (the tick holds the barrier's lock during its write: the rotation waits)
+	}
+	close(gate.release)
+	<-tickDone
+	if !got {
+		rot = <-rotDone
+	}
+	if rot.err != nil {
+		t.Fatalf("rotate: %v", rot.err)
+	}
+	if err := b.Put(ctx, &logical.StorageEntry{Key: "kv/after", Value: []byte("term 2")}); err != nil {
+		t.Fatal(err)
+	}
+	if err := b.Seal(); err != nil {
+		t.Fatal(err)
+	}
+	res := ""
+	if err := b.Unseal(ctx, rootKey); err != nil {
+		res = "unseal-failed"
+	} else {
+		rd := func(k string) string {
+			if e, err := b.Get(ctx, k); err == nil && e != nil {
+				return "ok"
+			}
+			return "lost"
+		}
+		term := "kept"
+		if info, err := b.ActiveKeyInfo(); err != nil || uint32(info.Term) != rot.term {
+			term = "regressed"
+		}
+		res = "before:" + rd("kv/before") + "|after:" + rd("kv/after") + "|term:" + term
+	}
+	if res != "before:ok|after:ok|term:kept" {
+		res += "!VIOL:a key rotation that overlapped the bookkeeping tick's keyring write was reported successful, and after a seal/unseal: " + res + " (the tick's stale keyring overwrote the rotated one)#keyring-lost-update-tick-vs-rotate"
+	}
+	out.Op(res, "tickrace")
+}
+
 func TestVerifC10Barrier(t *testing.T) {
 	out := vh.Open()
 	defer out.Close()
 	rng := vh.NewRand(vh.Seed())
 	c10SealedCommit(t, out)
+	c10TickRace(t, out)
 	nCases := vh.EnvInt("VERIF_C10_CASES", 1500)
 	if vh.Thorough() {
 		nCases = vh.EnvInt("VERIF_C10_CASES", 25000)
